@@ -63,3 +63,52 @@ Theorem C14_locateRSDT_is_translation :
     T.locate_result tr0 low (locateRSDT m low hi align pfail).
 Proof. exact T.locateRSDT_is_translation. Qed.
 Print Assumptions C14_locateRSDT_is_translation.
+
+(** mapACPITable (same generated file): the two calls through the identityMapFn seam are recorded as
+    [GCall "identityMapFn" [GNum frame; GNum size; GNum flags]]; [T.o_idmap fail] is the identityMapFn of the model's
+    environment - it returns the page of the frame it is given (identity mapping, as the kernel's vmm.IdentityMapRegion and
+    the harness stub do) and fails at the calls [fail] selects, numbered over the identityMapFn calls on the trace
+    ([T.n_idmap]); the model's seam counter must agree with the trace ([sk s = T.n_idmap tr0]).
+    [header.Length] is a 4-byte load at the compiler's offset of SDTHeader.Length from headerPage.Address() +
+    vmm.PageOffset(tableAddr) (vmm.PageOffset is taken as a & mask with the regenerated mask, Acpi/TransEnv.v).
+    [T.map_result tr0 s (s', r)]: GPanic for MStray, else the world with the model's new seam calls on top of tr0 and
+    (header, sizeof(SDTHeader), nil / errTableChecksumMismatch) resp. (nil pointer, sizeof, the seam's error) for MErr.
+    Fuel: at least 2^32 (the length field is 32 bits wide; the checksum loop runs over it). *)
+Theorem C14_mapACPITable_is_translation :
+  forall (m : mem) (fail : N -> bool) (s : seam) (tr0 : list gcall) (addr : N) (fuel : nat),
+    bytes_ok m -> addr < two64 -> sk s = T.n_idmap tr0 -> (N.to_nat two32 <= fuel)%nat ->
+    go_acpi_mapACPITable fuel (mk_go_acpi_world tr0) addr (T.ld_of m) (T.o_idmap fail) =
+    T.map_result tr0 s (mapACPITable m fail s addr).
+Proof. exact T.mapACPITable_is_translation. Qed.
+Print Assumptions C14_mapACPITable_is_translation.
+
+(** enumerateTables (same generated file).  The method runs over the world; its receiver fields rsdtAddr / useXSDT are
+    parameters; [drv.tableMap = make(..)] and [drv.tableMap[sig] = header] are the events [GCall "tableMap.make" []] and
+    [GCall "tableMap.set" [GNum sig; GNum header]] (a 4-byte signature is the little-endian number of its bytes), the
+    "checksum mismatch; skipping" line is [GCall "Fprintf" [GBytes format; GNum sig; GNum header; GNum length]], the seam
+    calls are as for mapACPITable; the local []uintptr is a list (make / indexed store / len / range as in Go).
+    [T.abs tr] is the model state a trace stands for: reading the trace oldest call first, an identityMapFn call is counted
+    and recorded in the seam, a Fprintf call logs [EvMismatch sig header length], tableMap.set registers, tableMap.make
+    empties the table map.
+    The theorem: for EVERY memory image with byte-valued cells, EVERY failure pattern [fail] of identityMapFn, root pointer and
+    entry width, the regenerated enumerateTables started on the empty trace
+    * panics exactly when the model reports a stray read,
+    * and otherwise returns the model's result - nil / errTableChecksumMismatch (corrupt root table) / the seam's error
+      (abort) - with a trace that stands for exactly the model's final state: the same identityMapFn calls in the same
+      order, the same mismatch reports in order, the same registrations in order.
+    So the function the theorems of Props/C14.v speak about - C14_registered_iff, C14_enumeration_order,
+    C14_enumeration_continues, C14_map_error_aborts, C14_success_no_seam_failure, C14_reports_in_order - is the translation
+    of the source.  Fuel: at least 2^32 (lengths are 32-bit).  The relative order BETWEEN the three kinds of events on the
+    trace is in the translation but not in the model's state, hence not in this statement. *)
+Theorem C14_enumerateTables_is_translation :
+  forall (m : mem) (fail : N -> bool) (rsdt : N) (useXSDT : bool) (fuel : nat),
+    bytes_ok m -> rsdt < two64 -> (N.to_nat two32 <= fuel)%nat ->
+    match enumerateTables m fail rsdt useXSDT with
+    | (_, IStray _) =>
+        go_acpi_acpiDriver_enumerateTables fuel (mk_go_acpi_world []) rsdt useXSDT (T.ld_of m) (T.o_idmap fail) = GPanic
+    | (s, r) =>
+        exists tr, go_acpi_acpiDriver_enumerateTables fuel (mk_go_acpi_world []) rsdt useXSDT (T.ld_of m) (T.o_idmap fail) =
+                   GOk (mk_go_acpi_world tr, T.err_of r) /\ T.abs tr = s
+    end.
+Proof. exact T.enumerateTables_is_translation. Qed.
+Print Assumptions C14_enumerateTables_is_translation.
